@@ -191,6 +191,26 @@ func worldPorts(w *World) {
 		}
 		cmp("tcp", env.frpsTCPPorts(), wantTCP)
 		cmp("udp", env.frpsUDPPorts(), wantUDP)
+		// the server's own tables: in use = bound, and nothing bound is listed as free
+		for proto, bound := range map[string]map[int]bool{"tcp": env.frpsTCPPorts(), "udp": env.frpsUDPPorts()} {
+			used, free, ok := env.portAccounting(proto)
+			if !ok {
+				continue
+			}
+			w.Check("C09.accounting-equals-bound")
+			for p := range bound {
+				if !used[p] {
+					viol("accounting", proto+"-bound-port-not-accounted", "after %s: frps is bound to %s port %d but its table of ports in use does not list it (free list has it: %v); history: %v", after, proto, p, free[p], history)
+				} else if free[p] {
+					viol("accounting", proto+"-bound-port-listed-free", "after %s: %s port %d is bound and in use but also on the free list; history: %v", after, proto, p, history)
+				}
+			}
+			for p := range used {
+				if !bound[p] {
+					viol("accounting", proto+"-accounted-port-not-bound", "after %s: the table of ports in use lists %s port %d but frps is not bound to it; history: %v", after, proto, p, history)
+				}
+			}
+		}
 		if m.quota > 0 {
 			for _, c := range clients {
 				if n := m.sessionPorts(c); n > m.quota {
